@@ -44,7 +44,7 @@ func (ex *Explorer) missingReach() []string {
 	return out
 }
 
-func report(verifDir, prop, tier string, seed int64, t0 time.Time, loadS float64, cc *CheckCfg, entries []*ssa.Function, results []*Explorer, known map[string]KnownFinding, noEvid bool, prog *ssa.Program) int {
+func report(verifDir, prop, tier string, seed int64, t0 time.Time, loadS float64, cc *CheckCfg, entries []*ssa.Function, results []*Explorer, known map[string]KnownFinding, noEvid bool, prog *ssa.Program, extraInconclusive []string, extraCoverage map[string]interface{}) int {
 	states, transitions, paths := 0, 0, 0
 	obligations, discharged := 0, 0
 	var samples []interface{}
@@ -128,6 +128,7 @@ func report(verifDir, prop, tier string, seed int64, t0 time.Time, loadS float64
 		}
 		perEntry = append(perEntry, entry)
 	}
+	inconclusive = append(inconclusive, extraInconclusive...)
 	// functions encoded: teleport functions only, with SSA instruction counts
 	type fe struct {
 		Name   string `json:"name"`
@@ -231,6 +232,9 @@ func report(verifDir, prop, tier string, seed int64, t0 time.Time, loadS float64
 		"target_panics_seen":            panics,
 		"states_meaning":                "symbolic path states created (paths + fork points)",
 		"transitions_meaning":           "SSA basic blocks executed symbolically",
+	}
+	for k, v := range extraCoverage {
+		ev.Coverage[k] = v
 	}
 	if !noEvid {
 		os.MkdirAll(filepath.Join(verifDir, "evidence"), 0o755)
